@@ -199,6 +199,48 @@ func c07ServiceTables() []map[string][]model.PermEntry {
 	}
 }
 
+// c07Distributed asks the first of three real instances to create a distributed account (two of three) for every table,
+// client and account name: the generation runs, and instances come to hold the account, only if the evaluator allows
+// "Create account" on the name.
+func c07Distributed(run *ev.Run, classes map[string]int) (int, error) {
+	cells := 0
+	tables := append(c07ServiceTables(),
+		map[string][]model.PermEntry{"c1": {{Path: rig.DistWallet, Ops: []string{"Create account"}}}},
+		map[string][]model.PermEntry{"c1": {{Path: rig.DistWallet + "/deny.*", Ops: []string{"None"}}, {Path: rig.DistWallet, Ops: []string{"All"}}}},
+		map[string][]model.PermEntry{"c1": {{Path: rig.DistWallet, Ops: []string{"Sign", "Access account"}}}},
+	)
+	serial := 0
+	for ti, table := range tables {
+		c, err := rig.NewCluster(rig.ClusterOpts{IDs: []uint64{1, 2, 3}, Permissions: toPerms(table)})
+		if err != nil {
+			return cells, err
+		}
+		for _, client := range []string{"c1", "c2", "", "zz"} {
+			for _, stem := range []string{"dg", "deny"} {
+				serial++
+				an := fmt.Sprintf("%s%d", stem, serial)
+				name := rig.DistWallet + "/" + an
+				n := c.Nodes[1]
+				creds := &checker.Credentials{Client: client, RequestID: "g", IP: "10.0.0.1"}
+				pk, _, gerr := n.Rig.Process.OnGenerate(n.Rig.Ctx, creds, name, []byte("pass"), 2, 3)
+				done := gerr == nil && len(pk) > 0
+				held := holders(c, name)
+				allowed := model.Allowed(table, client, rig.DistWallet, an, "Create account")
+				cells++
+				classes[fmt.Sprintf("Create account (distributed)|allowed=%v|done=%v", allowed, done)]++
+				tb, _ := json.Marshal(table)
+				rp := map[string]any{"check": "C07", "distributed_table": ti, "client": client, "account": name}
+				if (done || len(held) > 0) && !allowed {
+					run.Violate(fmt.Sprintf("distributed-create-carried-out:%s:client=%s:%s", tb, client, stem),
+						fmt.Sprintf("permissions %s: creating the distributed account %s for client %q was carried out (reported success=%v, instances holding it %v) although the reference evaluator refuses \"Create account\" there", tb, name, client, done, held), rp)
+				}
+			}
+		}
+		c.Close()
+	}
+	return cells, nil
+}
+
 // c07ServiceGrid drives every operation of every service under reduced tables.
 func c07ServiceGrid(run *ev.Run) (cells int, carried int, classes map[string]int, err error) {
 	classes = map[string]int{}
@@ -394,10 +436,16 @@ func C07(tier string) int {
 		run.HarnessErr = err
 		return run.Finish()
 	}
+	dcells, err := c07Distributed(run, sclasses)
+	if err != nil {
+		run.HarnessErr = err
+		return run.Finish()
+	}
+	cells += dcells
 	run.Coverage = map[string]any{
 		"evaluations":         calls + cells,
 		"distinct_nontrivial": len(classes) + len(sclasses),
-		"rule":                "checker grid: every one-entry table over (12 wallet patterns x 9 account patterns (literals, alternation, anchors, escape classes \\D \\W \\S) x ordered operation lists of length <= 2 (3 in thorough) over 8 items) and two-entry tables (first entry x 4 second entries), each asked for 8 wallet names x 6 account names (one containing a slash) x 3 operations x 6 client identities; verdict is one-directional: Check==true implies the reference evaluator (whole-name, case-insensitive, first bearing item) allows; service grid: 8 tables x 3 clients x 4 wallets x 3 accounts x every operation of signer (by name and by key), lister, account manager, wallet manager and generate on the real services: carried out only if the evaluator allows on the resolved name, and a refused request leaves decoded records and lock/account state unchanged; distinct = (dirk verdict, reference verdict) and (operation, allowed, done) classes",
+		"rule":                "checker grid: every one-entry table over (12 wallet patterns x 9 account patterns (literals, alternation, anchors, escape classes \\D \\W \\S) x ordered operation lists of length <= 2 (3 in thorough) over 8 items) and two-entry tables (first entry x 4 second entries), each asked for 8 wallet names x 6 account names (one containing a slash) x 3 operations x 6 client identities; verdict is one-directional: Check==true implies the reference evaluator (whole-name, case-insensitive, first bearing item) allows; service grid: 8 tables x 3 clients x 4 wallets x 3 accounts x every operation of signer (by name and by key), lister, account manager, wallet manager and generate (single-instance, and two-of-three across three real instances) on the real services: carried out only if the evaluator allows on the resolved name, and a refused request leaves decoded records and lock/account state unchanged; distinct = (dirk verdict, reference verdict) and (operation, allowed, done) classes",
 		"samples": []any{
 			map[string]any{"table": map[string]any{"c1": []any{map[string]any{"path": "Wallet1|Wallet2", "ops": []string{"All"}}}}, "request": "client c1, Sign on Wallet10/acc"},
 			map[string]any{"service_cell": "table 3, client c1, Lock account on Wallet1/acc by name"},
